@@ -94,7 +94,11 @@ class C17(Check):
         + str(len(P.user_flat_entries("quick"))) + " (thorough "
         + str(len(P.user_flat_entries())) + ") of them with str/int-only fields, 3 old-style classes that implement only the "
         "get_hash/is_equal backend (vf/c17_usercls.py; pickle may refuse these with "
-        "NotImplementedError, anything it accepts is held to every invariant), (parent, position, child) nestings over one representative shape per "
+        "NotImplementedError, anything it accepts is held to every invariant), "
+        + str(len([e for e in P.postinit_entries() if e["family"] == "user"]))
+        + " instances of expr_dataclass nodes with a __post_init__ (validating / idempotent "
+        "normalisation / non-idempotent transformation of a plain, int or tuple field; "
+        "decorated and undecorated subclasses), (parent, position, child) nestings over one representative shape per "
         "class (quick: 3 field kinds -- plain field, tuple element, keyword value -- x 34 "
         "children = " + str(len(P.nest_entries("quick"))) + "; thorough: all "
         + str(len(P.nest_entries("thorough"))) + " (parent, position, child) triples), user "
